@@ -6,6 +6,7 @@ Property theorems only; helper lemmas are in OsloProofs/Lemmas/C19Split.lean (th
 -/
 import OsloModel.Split
 import OsloProofs.Lemmas.C19Split
+import OsloProofs.Lemmas.C19Commas
 namespace Oslo.Split
 
 /-! ## split_path -/
@@ -343,5 +344,177 @@ theorem split_path_trailing_slash (rest : List Char) (minsegs : Nat) (maxsegs : 
 example : splitPath "/a//c".toList 2 (some 3) false = .error .valueError ∧
     (splitAll '/' "a//c".toList)[1]? = some [] := by
   simp [splitPath, effMax, pySplit, consHead, slice, splitAll]
+
+/-! ## split_by_commas -/
+
+theorem lemma_isEnc_notab (item e : List Char) (he : IsEnc item e) (hok : okItem item = true) : '\t' ∉ e := by
+  rcases he with he | ⟨he, -, -⟩
+  · subst he; exact quote_notab item (okItem_notab item hok)
+  · rw [he]; exact okItem_notab item hok
+
+/-- **Round trip, any admissible quoting.**  For every non-empty list of items without TAB, LF, CR
+    (a superset of printable ASCII; also non-ASCII text) and any way of writing each item that is either
+    the double-quoted form with `\"` / `\\` escapes or — for a non-empty run of word characters — the
+    item itself: splitting the comma-joined string returns exactly the items. -/
+theorem split_commas_roundtrip_any_quoting (items : List (List Char)) (enc : List Char → List Char)
+    (hne : items ≠ []) (hok : ∀ i ∈ items, okItem i = true) (henc : ∀ i ∈ items, IsEnc i (enc i)) :
+    splitByCommas (joinSep ',' (items.map enc)) = .ok items := by
+  unfold splitByCommas parseAll
+  rw [expandTabs_notab _ _ (joinSep_notab _ (by
+    intro e he; simp only [List.mem_map] at he
+    obtain ⟨i, hi, rfl⟩ := he
+    exact lemma_isEnc_notab i _ (henc i hi) (hok i hi)))]
+  apply parseItems_join items enc henc hok hne
+  have := joinSep_length (items.map enc)
+  simpa using this
+
+/-- **Round trip** (the property's encoder): items that are empty or contain anything but word
+    characters — comma, quote, space, … — or a backslash are double-quoted with backslash escapes, the
+    others are written as they are; `split_by_commas(",".join(...))` gives back the items. -/
+theorem split_commas_roundtrip (items : List (List Char))
+    (hne : items ≠ []) (hok : ∀ i ∈ items, okItem i = true) :
+    splitByCommas (joinSep ',' (items.map quoteIfNeeded)) = .ok items :=
+  split_commas_roundtrip_any_quoting items quoteIfNeeded hne hok (fun i _ => isEnc_quoteIfNeeded i)
+
+/-- the same for the domain named in the property: item lists over printable ASCII -/
+theorem split_commas_roundtrip_printable (items : List (List Char))
+    (hne : items ≠ []) (hp : ∀ i ∈ items, ∀ c ∈ i, printable c = true) :
+    splitByCommas (joinSep ',' (items.map quoteIfNeeded)) = .ok items :=
+  split_commas_roundtrip items hne (fun i hi => by
+    simp only [okItem, List.all_eq_true]
+    exact fun c hc => printable_okChar c (hp i hi c hc))
+
+/-- … and with every item quoted -/
+theorem split_commas_roundtrip_all_quoted (items : List (List Char))
+    (hne : items ≠ []) (hok : ∀ i ∈ items, okItem i = true) :
+    splitByCommas (joinSep ',' (items.map quote)) = .ok items :=
+  split_commas_roundtrip_any_quoting items quote hne hok (fun _ _ => Or.inl rfl)
+
+example :
+    let items : List (List Char) := [['a', ',', 'b'], [], ['c', '"', '\\'], ['d'], [' ']]
+    items ≠ [] ∧ (∀ i ∈ items, ∀ c ∈ i, printable c = true) ∧
+    joinSep ',' (items.map quoteIfNeeded) =
+      ['"', 'a', ',', 'b', '"', ',', '"', '"', ',', '"', 'c', '\\', '"', '\\', '\\', '"', ',', 'd', ',', '"', ' ', '"'] := by
+  decide
+
+/-- a failing tail still fails behind any well-formed prefix `item,item,…,` -/
+theorem lemma_reject_wrap (pre : List (List Char)) (bad : List Char)
+    (hok : ∀ i ∈ pre, okItem i = true) (ht : '\t' ∉ bad)
+    (hbad : ∀ f, parseItems (f + 1) bad = .error .valueError) :
+    splitByCommas (prefixStr pre ++ bad) = .error .valueError := by
+  unfold splitByCommas parseAll
+  rw [expandTabs_notab _ _ (by
+    simp only [List.mem_append, not_or]; exact ⟨prefixStr_notab pre hok, ht⟩)]
+  have hl := prefixStr_length pre
+  have := parseItems_prefix_error pre bad hok hbad ((prefixStr pre ++ bad).length - pre.length)
+  rw [show pre.length + ((prefixStr pre ++ bad).length - pre.length) + 1 = (prefixStr pre ++ bad).length + 1 by
+    simp; omega] at this
+  exact this
+
+/-- **Unbalanced quotes.**  At an item position (start of the string or after `item,item,…,`), an
+    opening quote that is never closed — reading on, every later `"` is escaped by a backslash — is
+    rejected, whatever else the text contains. -/
+theorem split_commas_rejects_unbalanced (pre : List (List Char)) (body : List Char)
+    (hok : ∀ i ∈ pre, okItem i = true) (ht : '\t' ∉ body) (hb : noClosingQuote body = true) :
+    splitByCommas (prefixStr pre ++ '"' :: body) = .error .valueError := by
+  apply lemma_reject_wrap pre _ hok (by simp only [List.mem_cons, not_or]; exact ⟨by decide, ht⟩)
+  intro f
+  simp only [parseItems]
+  rw [skipWs_of_head _ (by intro c hc; simp at hc; subst hc; decide)]
+  simp [parseItem, scanQuoted_noClosing body hb]
+
+/-- in particular an opening quote followed by any escaped text and no closing quote -/
+theorem split_commas_rejects_unclosed (pre : List (List Char)) (content : List Char)
+    (hok : ∀ i ∈ pre, okItem i = true) (ht : '\t' ∉ content) :
+    splitByCommas (prefixStr pre ++ '"' :: escape content) = .error .valueError :=
+  split_commas_rejects_unbalanced pre _ hok
+    (fun h => by rcases escape_mem _ _ h with h | h; exact ht h; revert h; decide)
+    (noClosingQuote_escape content)
+
+example : noClosingQuote ['a', '\\', '"', 'b', ','] = true ∧ ('\t' ∉ ['a', '\\', '"', 'b', ',']) := by decide
+
+/-- **Text after an item.**  After a complete item (either encoding) and optional whitespace, any
+    character other than a comma is rejected: `"a"b`, `"a" "b"`, `a b`, `a"b"` (for a bare item directly
+    followed by `c`, `c` must be a character that ends the word, e.g. a quote). -/
+theorem split_commas_rejects_text_after_item (pre : List (List Char)) (item e ws : List Char) (c : Char)
+    (rest : List Char) (hok : ∀ i ∈ pre, okItem i = true) (hi : okItem item = true) (he : IsEnc item e)
+    (hws : ∀ w ∈ ws, isWs w = true) (hc1 : isWs c = false) (hc2 : c ≠ ',')
+    (hstop : e = item → ws = [] → isWordChar c = false)
+    (ht : '\t' ∉ ws ++ c :: rest) :
+    splitByCommas (prefixStr pre ++ (e ++ (ws ++ c :: rest))) = .error .valueError := by
+  apply lemma_reject_wrap pre _ hok (by
+    simp only [List.mem_append, not_or]; exact ⟨lemma_isEnc_notab item e he hi, by simpa using ht⟩)
+  intro f
+  have hst : e = item → Stops (ws ++ c :: rest) := by
+    intro hei x hx
+    cases ws with
+    | nil => simp at hx; subst hx; exact hstop hei rfl
+    | cons a t => simp at hx; subst hx; exact isWs_not_word _ (hws _ (by simp))
+  simp only [parseItems]
+  rw [skipWs_of_head _ (enc_head_not_ws item e he _), parseItem_enc item e _ he hi hst]
+  simp only
+  rw [skipWs_append ws (c :: rest) hws (by intro x hx; simp at hx; subst hx; exact hc1)]
+  simp [hc2]
+
+/-- **Text after a closing quote** (the quoted case of the previous theorem, no side condition) -/
+theorem split_commas_rejects_text_after_quote (pre : List (List Char)) (item ws : List Char) (c : Char)
+    (rest : List Char) (hok : ∀ i ∈ pre, okItem i = true) (hi : okItem item = true)
+    (hws : ∀ w ∈ ws, isWs w = true) (hc1 : isWs c = false) (hc2 : c ≠ ',')
+    (ht : '\t' ∉ ws ++ c :: rest) :
+    splitByCommas (prefixStr pre ++ (quote item ++ (ws ++ c :: rest))) = .error .valueError := by
+  refine split_commas_rejects_text_after_item pre item (quote item) ws c rest hok hi (Or.inl rfl) hws hc1 hc2 ?_ ht
+  intro h
+  have : (quote item).length = item.length := by rw [h]
+  simp [quote] at this
+  have hl : item.length ≤ (escape item).length := by
+    clear this h hi
+    induction item with
+    | nil => simp [escape]
+    | cons a r ih => simp only [escape]; split <;> simp <;> omega
+  omega
+
+/-- **Empty unquoted item.**  At an item position, optional whitespace followed by the end of the
+    string or by a comma is rejected: the empty string, `,a`, `a,,b`, `a,`, `a, ,b`. -/
+theorem split_commas_rejects_empty_item (pre : List (List Char)) (ws tail : List Char)
+    (hok : ∀ i ∈ pre, okItem i = true) (hws : ∀ w ∈ ws, isWs w = true)
+    (htail : tail = [] ∨ ∃ r, tail = ',' :: r) (ht : '\t' ∉ ws ++ tail) :
+    splitByCommas (prefixStr pre ++ (ws ++ tail)) = .error .valueError := by
+  apply lemma_reject_wrap pre _ hok ht
+  intro f
+  simp only [parseItems]
+  rcases htail with h | ⟨r, h⟩
+  · subst h
+    rw [skipWs_append ws [] hws (by simp)]
+    simp [parseItem]
+  · subst h
+    rw [skipWs_append ws (',' :: r) hws (by intro x hx; simp at hx; subst hx; decide)]
+    have : scanWord (',' :: r) = none := scanWord_none_of_not_word ',' r (by decide)
+    simp [parseItem, this]
+
+/-- every failure of `split_by_commas` is a ValueError: the parser's fuel (length of the input + 1)
+    is never exhausted -/
+theorem split_commas_fuel_sufficient (value : List Char) (e : Err)
+    (h : splitByCommas value = .error e) : e = .valueError := by
+  unfold splitByCommas parseAll at h
+  have hf := parseItems_no_outOfFuel _ (expandTabs 0 value) (Nat.lt_succ_self _)
+  have key : ∀ f s e, parseItems f s = .error e → e = .valueError ∨ e = .outOfFuel := by
+    intro f
+    induction f with
+    | zero => intro s e h; simp [parseItems] at h; exact Or.inr h.symm
+    | succ f ih =>
+      intro s e h
+      simp only [parseItems] at h
+      split at h
+      · injection h with h; exact Or.inl h.symm
+      · split at h
+        · simp at h
+        · split at h
+          · cases hr : parseItems f _ with
+            | ok l => rw [hr] at h; simp at h
+            | error e' => rw [hr] at h; injection h with h; subst h; exact ih _ _ hr
+          · injection h with h; exact Or.inl h.symm
+  rcases key _ _ _ h with h' | h'
+  · exact h'
+  · subst h'; exact absurd h hf
 
 end Oslo.Split
